@@ -39,6 +39,7 @@ func runC13(c *Ctx) {
 
 	const r3 = "C13.R3 timeout forwarding versus router timer"
 	ruleTimeout(c, r3)
+	ruleFeatureTable(c, r3) // call_canceling / call_timeout are what the callee announced under its callee role
 	ruleTimerStoppedOnFinal(c, r3)
 	ruleOneTimerPerCall(c, r3)
 	c.R.Floor(r3, 18)
